@@ -745,8 +745,26 @@ func c04R3(c *Ctx) {
 				initial = append(initial, d.Limiter)
 			}
 		}
+		var limArgs []ssa.Value
 		for _, d := range c01DispatchCalls(T, tr.Entry) {
-			arg := d.Limiter
+			// a dispatching helper receives the limiter as a parameter: judged at the call handing it over
+			if holder := d.GoCall.Parent(); holder != T {
+				if prm := c01ParamOf(d.Limiter); prm != nil && prm.Parent() == holder {
+					mapped := false
+					for k, q := range holder.Params {
+						if q == prm && k < len(d.Call.Common().Args) && StaticCallee(d.Call) == holder {
+							limArgs = append(limArgs, d.Call.Common().Args[k])
+							mapped = true
+						}
+					}
+					if mapped {
+						continue
+					}
+				}
+			}
+			limArgs = append(limArgs, d.Limiter)
+		}
+		for _, arg := range limArgs {
 			srcs, carried := c01CarriedSources(c.P, arg)
 			if !carried {
 				ok, why = false, "the traversal dispatches successors with a limiter that is not state carried from the enclosing copy call"
